@@ -18,15 +18,15 @@ NA = {
 }
 
 CHECKS = {
- "C01": dict(engine="netsim+poolsim", technique="deterministic simulation with fault injection on the tap: valid simulated traffic through truncation, bit flips, IHL/total-length/data-offset/protocol/ethertype/version rewrites, TCP option rewrites, junk, spliced garbage, torn/flipped streams and database text; panic/overflow/hang capture; clean probe compared with a fresh instance under the same simulated clock; the signature database is an input too (24 deterministic rewrites of the bundled text inside its grammar), logging on for 1 run in 4",
+ "C01": dict(engine="netsim+poolsim", technique="deterministic simulation with fault injection on the tap: valid simulated traffic through truncation, bit flips, IHL/total-length/data-offset/protocol/ethertype/version rewrites, TCP option rewrites, junk, spliced garbage, torn/flipped streams and database text; panic/overflow/hang capture; clean probe compared with a fresh instance under the same simulated clock; the signature database is an input too (24 deterministic rewrites of the bundled text inside its grammar), logging on for 1 run in 4; pool part also through the analyzers' own parallel capture loops and with receive timeouts of 0 / hours / u64::MAX (a wait nothing can end exceeds the step limit: class step-limit)",
    text="Exploration with enumerated sub-spaces: seeded faulty histories into the four analyzers (per-packet path and the real packet loop), the incremental ClientHello reader, the HTTP/2 extractor, HttpProcessors and Database::from_str; systematic scenarios enumerate TCP option (kind,len,position) encodings in SYN and SYN+ACK, every truncation length and single-bit flips in the first 80 bytes of generated frames and of the frames of the four bundled pcaps. The build has overflow checks and debug assertions on, so arithmetic overflow is a panic; a 15 s per-run watchdog reports hangs.",
    note="For the purely input-quantified half ('all byte strings') this is seeded mutation of valid traffic plus the listed enumerations, not a proof. The worker-path half (dispatch hashing, worker liveness) is exercised by the poolsim engine.",
    design="4/C01"),
- "C07": dict(engine="netsim", technique="deterministic simulation: seeded order-preserving interleavings of 2..8 generated connections (TCP handshakes with timestamps, segmented TLS hellos, HTTP/1, HTTP/2 incl. hostile HPACK blocks, garbage, teardowns by FIN/RST) and, 1 run in 300, populations of 1000..6000 simultaneously open connections, on one analyzer instance under a simulated clock; per-connection per-packet equivalence with the isolated replay at the same simulated times",
+ "C07": dict(engine="netsim", technique="deterministic simulation: seeded order-preserving interleavings of 2..8 generated connections (TCP handshakes with timestamps, segmented TLS hellos, HTTP/1, HTTP/2 incl. hostile HPACK blocks, garbage, teardowns by FIN/RST, later connections reusing a 4-tuple in the same or in swapped roles, HTTP flow tables of exactly one entry per endpoint pair) and, 1 run in 300, populations of 1000..6000 simultaneously open connections, on one analyzer instance under a simulated clock; per-connection per-packet equivalence with the isolated replay at the same simulated times",
    text="Exploration over merge orders (uniform, round-robin, bursts, hostile-first), endpoint sharing (same client other port, same server many clients, swapped roles), all four analyzers and both drive paths. A clean run shows that on everything explored no connection's results were suppressed, altered or leaked by other traffic.",
    note="Fault-free configuration: capacity >= 2N+4 and timelines inside every TTL, as the statement conditions on the configured capacity; isolated and interleaved runs read the same simulated clock. Differential against the same code run alone.",
    design="4/C07"),
- "C08": dict(engine="netsim+poolsim", technique="deterministic simulation: seeded + enumerated in-order segmentations of TLS record streams, interleaved flows, simulated clock; oracle over the recorded history of return values",
+ "C08": dict(engine="netsim+poolsim", technique="deterministic simulation: seeded + enumerated in-order segmentations of TLS record streams, interleaved flows, bare and Fast Open SYNs, cleartext preambles in front of the handshake, further connections on a used 4-tuple, simulated clock; oracle over the recorded history of return values",
    text="Exploration: every single cut position of fixed ClientHellos is enumerated, multi-way partitions, interleavings with other flows and the three delivery paths (reader API, per-packet path, real sequential packet loop) are sampled by seed. A clean run shows exactly-once/at-completion/equal-to-one-segment on everything explored; it is not a proof over all hellos.",
    note="Trusts the generator's knowledge of where the record ends (5 + declared length) and the one-segment delivery on a fresh instance as reference; deliveries are kept inside the 20 s flow TTL because the statement does not quantify over time.",
    design="4/C08"),
@@ -36,11 +36,11 @@ CHECKS = {
    design="4/C09"),
  "C10": dict(engine="poolsim", technique="deterministic simulation of the real WorkerPools under shuttle's seeded scheduler (random, PCT in thorough) with a model channel standing in for crossbeam; traces of whole connections between arbitrary endpoints (1 in 40: populations of 300..1500 simultaneously open connections filling the configured capacity exactly) x pool configurations x schedules; multiset and per-connection-order comparison with the sequential analyzer",
    text="Exploration over schedules: for each generated (trace, workers 1..16, batch, timeout, queue >= trace) scenario several scheduler seeds x iterations are executed; dispatcher, workers (real worker_loop code incl. batching, timeout and disconnect branches) and collector interleave at every atomic, channel, mutex and spawn operation. Results must equal the sequential analyzer's as a multiset and keep per-connection (TCP: per-sending-host) order; a Dropped outcome with sufficient queues is itself a violation.",
-   note="shuttle explores sequentially consistent interleavings only; the model channel's timeouts fire only on an empty queue (abstract time) with a bounded budget per receiver. Three scenarios in four drive WorkerPool::dispatch directly and drain by dropping the pool; one in four goes through the analyzer's own parallel packet loop (with_config + init_pool + process_with via H3), including TCP's shutdown-at-end-of-input. The simulated wall clock is frozen during an execution.",
+   note="shuttle explores sequentially consistent interleavings only; the model channel's timeouts fire only on an empty queue (abstract time): by coin with a bounded budget per receiver and, since round 9, once per tick of a clock thread that runs in every execution, so a finite timeout always fires in the end while a timeout of a century or more never does; fault 'slow worker' lets 1.5-10 s pass for readers of Instant per dequeued frame. Three scenarios in four drive WorkerPool::dispatch directly and drain by dropping the pool; one in four goes through the analyzer's own parallel packet loop (with_config + init_pool + process_with via H3), including TCP's shutdown-at-end-of-input. The simulated wall clock is frozen during an execution.",
    design="4/C10"),
- "C11": dict(engine="netsim+poolsim", technique="deterministic simulation with a counting allocator as cost oracle: long never-fingerprinting connections (endless HTTP heads, binary after SYN, oversized/unfinished TLS records, application data after a non-hello record, random bytes) in parallel on one analyzer, and populations of thousands of short complete connections with distinct recurring values on an analyzer of capacity 1..4, simulated clock advancing past the TTLs; allocation and live-heap sampled around every delivered packet; poolsim part: the real worker pools under shuttle with every worker stalled (fault 'stalled node') while queue_size + k frames are handed over, queue sizes 1..100000",
+ "C11": dict(engine="netsim+poolsim", technique="deterministic simulation with a counting allocator as cost oracle: long never-fingerprinting connections (endless HTTP heads, binary after SYN, oversized/unfinished TLS records, application data after a non-hello record, random bytes) in parallel on one analyzer, populations of thousands of short complete connections with distinct recurring values on an analyzer of capacity 1..4, and (1 run in 16) 20000..200000 distinct frames that belong to no connection at all (fragments, other protocols, impossible flags, truncations), simulated clock advancing past the TTLs; allocation and live-heap sampled around every delivered packet; poolsim part: the real worker pools under shuttle with every worker stalled (fault 'stalled node') while queue_size + k frames are handed over, queue sizes 1..100000",
    text="Exploration: per delivered segment the bytes allocated while handling it and the heap bytes live after it are compared with fixed bounds (live <= connections x 512 KiB + 1 MiB; per packet <= 4 MiB + 64 x packet length; median of a connection's last tenth <= 2 x first tenth + 2 MiB). Quick: up to 2000 segments per connection; thorough: up to 100000. Capacities 1/4/64/1000, 1..12 parallel connections, segment sizes 1..1460. Pool part: the depth of every worker queue (stats()) never exceeds the configured queue size while the workers are stalled, exactly the overflow is dropped and counted, and the queues drain afterwards.",
-   note="One oracle is timing-based (crowd scenario: thread CPU time of the last 250 packets <= 8 x max(first 250, 1 ms); healthy ratio ~1, a degenerate table >= 15): it is the only verdict in the harness that is not a pure function of the seed, and is built with an order of magnitude of margin on both sides. Constants are fixed in c11.rs and deliberately loose; they were revised (from 128 KiB / 256 KiB, then 2 MiB) after measuring the parsers' constant factor (17x..21x the buffered bytes in temporaries) and per-segment bookkeeping, before the repair was written - see DESIGN. Work is measured as bytes allocated, a proxy for time that is deterministic; CPU time is not measured.",
+   note="Two oracles rest on measured thread CPU time (crowd scenario: last 250 packets <= 8 x max(first 250, 1 ms), healthy ratio ~1, a degenerate table >= 15; per packet <= 50 ms, healthy figure < 1 ms): they are the only verdicts in the harness that are not pure functions of the seed. Both have an order of magnitude of margin, are confirmed by running the scenario twice more in-process before being reported, and a timing finding that does not reproduce from its replay file in three fresh processes is discarded with a note (counted in the evidence) instead of being reported - a cost that is in the code is there every time, machine noise is not. Constants are fixed in c11.rs and deliberately loose; they were revised (from 128 KiB / 256 KiB, then 2 MiB) after measuring the parsers' constant factor (17x..21x the buffered bytes in temporaries) and per-segment bookkeeping, before the repair was written - see DESIGN. Work is otherwise measured as bytes allocated, a proxy for time that is deterministic.",
    design="4/C11"),
  "C15": dict(engine="netsim+poolsim", technique="deterministic simulation: seeded traces of well-formed and malformed frames (Ethernet/raw/NULL 0x1e/AF loopback framing incl. other platforms' family words in both byte orders, IPv4 IHL 0..15, total-length/protocol/ethertype/version lies, truncation) x generated FilterConfigs; filtered run vs unfiltered run on the admitted sub-trace at the same simulated times",
    text="Exploration: filters are generated from the trace's own endpoints so that each sub-filter matches about half of them; all four analyzers (the unified one through its real packet loop); poolsim part: a real worker pool created with the filter, under shuttle schedules, against the unfiltered sequential analyzer on the admitted sub-trace. Checked per packet: nothing is reported for endpoints the filter rejects (endpoints as the analyzer's own parser assigns them), and every admitted packet yields exactly what the unfiltered analyzer yields on the admitted sub-trace.",
@@ -50,7 +50,7 @@ CHECKS = {
    text="Exploration: frame sequences (settings incl. unknown ids, WINDOW_UPDATE/PRIORITY before and after SETTINGS, HEADERS with PADDED/PRIORITY/CONTINUATION, with/without preface) are drawn by seed; every single cut of fixed short streams is enumerated, multi-way chunkings sampled. Checked: at most one report, on the chunk completing the first SETTINGS frame, equal to the one-shot result on that prefix, and the one-shot result equal to an independent reference model string and SHA-256 prefix.",
    note="The reference model is 30 lines of harness code over the generator's structure (not over parsed bytes). An empty first SETTINGS frame is treated as unspecified by the statement: only incremental == one-shot is required there.",
    design="4/C17"),
- "C18": dict(engine="poolsim", technique="deterministic simulation of the real WorkerPools under shuttle's seeded scheduler: 1..4 concurrent dispatcher threads, queue sizes 0/1/2/8/64 (forced overflow), a concurrent stats() reader, fault 'result consumer gone' (receiver dropped mid-dispatch); exactly-once accounting over recorded outcomes, results and counters; plus thread-free affinity checks of the dispatch hash under header rewrites for worker counts 1..64",
+ "C18": dict(engine="poolsim", technique="deterministic simulation of the real WorkerPools under shuttle's seeded scheduler: 1..4 concurrent dispatcher threads, queue sizes 0/1/2/8/64 (forced overflow), a concurrent stats() reader, fault 'result consumer gone' (receiver dropped mid-dispatch), fault 'drop storm' (1 scenario in 160: workers stalled, 2-3 dispatchers x 70000-140000 frames for one worker, counters compared at rest); exactly-once accounting over recorded outcomes, results and counters; plus thread-free affinity checks of the dispatch hash under header rewrites for worker counts 1..64",
    text="Exploration over schedules and configurations: every frame is uniquely identifiable (unique source endpoint), so each Queued outcome must be matched by exactly one result and each Dropped by none; stats() must equal the tallied outcomes under each pool's own meaning of 'dispatched', per-worker drop counters must match queue-full drops, queue sizes must be 0 once everything was consumed, counters read concurrently must be monotone. Affinity: worker index < W and unchanged under rewriting payload, flags, seq/ack, window, TTL, IP id, ToS, DF, options, flow label, framing; HTTP symmetric in direction; TCP equal for equal source address.",
    note="Accounting executions never call shutdown() (the statement says 'before shutdown'). shuttle = sequentially consistent atomics; relaxed-memory effects on the Relaxed counters are out of reach. Rendezvous (queue 0) semantics are the model channel's.",
    design="4/C18"),
@@ -58,7 +58,7 @@ CHECKS = {
    text="Exploration: both hosts' timestamp clocks (steady at boundary/OS-typical/every-integer rates, out-of-range, jittering, stalled, stepping backward, wrapping), gaps drawn around 25 ms/100 ms/30 s/600 s, interleaved second connection, ports on both sides of the role heuristic, wall-clock jumps. Every timestamped segment is judged against a 60-line model (grid rounding, uptime decomposition, wrap period, role rule, bad-marker). Systematic part: every integer rate 1..1500 (quick: every 7th) x boundary gaps.",
    note="Model assumptions: the rate of a pair is ticks*1000/ms as the analyzer observed them; with fewer than 5 ticks of movement either outcome is accepted; an entry is assumed to live at least 30 s and at most judged within 10 min; after a wall-clock jump endpoints whose reference predates the jump are no longer judged (narrow relaxation). One open known finding (backward movement).",
    design="4/C19"),
- "C20": dict(engine="netsim", technique="deterministic simulation: lockstep differential of HuginnNet (one instance per switch combination) against HuginnNetTcp, HuginnNetHttp and the stateless TLS path on seeded traces (interleaved connections, single-segment ClientHellos, corrupted and spliced frames), fault 'capture source ends and restarts' (an empty run of each analyzer's own packet loop between packets), under one simulated clock",
+ "C20": dict(engine="netsim", technique="deterministic simulation: lockstep differential of HuginnNet (one instance per switch combination) against HuginnNetTcp, HuginnNetHttp and the stateless TLS path on seeded traces (interleaved connections, single-segment ClientHellos, corrupted and spliced frames), fault 'capture source ends and restarts' (an empty run of each analyzer's own packet loop between packets), a scale scenario with 2^20+200 simultaneously open connections once per check, under one simulated clock",
    text="Exploration: per frame and per enabled protocol the unified result's fields are compared (canonical Debug text incl. endpoints, labels, qualities, MTU, uptime, diagnosis, language, JA4) with the protocol analyzer's output whenever every enabled analyzer accepted the frame; disabled protocols must contribute nothing; with matching off every quality must be Disabled and every raw signature equal to the matching-on instance; the constructor's database rule is checked for all 16 combinations. Quick samples 6 combinations per trace, thorough all 16.",
    note="Differential against the protocol analyzers run in the same process at the same simulated times with the same capacity; a defect shared by both sides is invisible here.",
    design="4/C20"),
